@@ -491,8 +491,9 @@ class Ctx:
               'coverage': cov,
               'assumptions': assumptions or [],
               'wall_s': round(time.time() - self.t0, 2), 'violations': violations}
-        os.makedirs(os.path.join(VERIF, 'evidence'), exist_ok=True)
-        with open(os.path.join(VERIF, 'evidence', prop + '.json'), 'w') as fh:
+        edir = os.path.join(VERIF, 'evidence' if not getattr(self, 'dev', False) else '.work')
+        os.makedirs(edir, exist_ok=True)
+        with open(os.path.join(edir, prop + '.json'), 'w') as fh:
             json.dump(ev, fh, indent=1, sort_keys=True)
         for ln in lines:
             print(ln)
